@@ -59,6 +59,19 @@ func SignatureSchemes(ids []uint16) []signaturehash.Algorithm {
 	return algorithms
 }
 
+// CommonSignatureSchemes returns the peer's signature schemes, in the peer's
+// order of preference, that the local policy allows as well.
+func CommonSignatureSchemes(peer, local []signaturehash.Algorithm) []signaturehash.Algorithm {
+	common := make([]signaturehash.Algorithm, 0, len(peer))
+	for _, scheme := range peer {
+		if slices.Contains(local, scheme) {
+			common = append(common, scheme)
+		}
+	}
+
+	return common
+}
+
 func FindMatchingCipherSuite(a, b []dtlsconfig.CipherSuite) (dtlsconfig.CipherSuite, bool) {
 	for _, p1 := range a {
 		for _, p2 := range b {
